@@ -68,16 +68,15 @@ pub fn writer_of(id: usize) -> bool {
 /// No lock at all is held (used for obligation O3).
 pub fn nothing_held() -> bool {
     let t = table();
-    let mut i = 0;
     let mut ok = true;
-    while i < NLOCK {
+    crate::unroll20!(i, {
         if t.readers[i] != 0 || t.writer[i] {
             ok = false;
         }
-        i += 1;
-    }
+    });
     ok
 }
+const _: () = assert!(NLOCK == 20);
 
 #[inline]
 fn blocked() {
